@@ -350,11 +350,17 @@ func genLineText(r *core.Rand) string {
 		// longer than bufio's 4096-byte buffer (and than two of them)
 		return strings.Repeat(r.Pick([]string{"pkg-name, ", "x", "ab cd "}), r.Pick2(700, 1500)) + "end"
 	}
-	switch r.Intn(6) {
+	switch r.Intn(7) {
 	case 0:
 		return ""
 	case 1:
 		return r.Pick([]string{"foo", "1.0-1", "a b c", "x: y", "#not a comment", ".x", "..", "a\tb", "é", "-"})
+	case 2:
+		// text that is not ASCII: characters whose last byte is 0x85 / 0xA0 (white space as Latin-1, not
+		// as UTF-8) at the end of a line, bytes that are not UTF-8 at all (Latin-1 names in old indexes),
+		// and a '#' that is not in the first column
+		return r.Pick([]string{"citt\u00e0", "\u0421\u0421\u0421\u0420", "\u305d\u3046\u3060", "\u00c5", "x\u2005y\u3000z", "J\xf6rg", "na\xefve \xff", "a\x80", "\xa0x\x85", "\xc3", "x \xe2\x80",
+			"#805210).", "# systemctl enable foo", "closes: #1, #2", "-----BEGIN PGP PUBLIC KEY BLOCK-----", "-----BEGIN PGP SIGNED MESSAGE-----"}) + r.Pick([]string{"", "", " tail", "\u00e0"})
 	default:
 		return strings.TrimRight(r.Str("abc xyz:#.", r.Range(1, 8)), " ")
 	}
